@@ -38,7 +38,7 @@ C02(C, X) ==
   /\ \A s \in Scheds(C) :
         (X.cause[s] = "success" \/ X.res[s] = <<"true", 0>>) =>
            \A k \in NonForever(C, s) :
-              Fin(X, k) /\ X.nstart[k] = 1 /\ X.te[k] <= X.ta[s]
+              Gone(X, k) /\ X.nstart[k] = 1 /\ X.te[k] <= X.ta[s]
 
 (* C03  progress: no reachable state is stuck (admissible configurations)  *)
 C03(C, X) == ~Stuck(C, X)
@@ -50,12 +50,12 @@ C04(C, X) ==
       /\ X.cause[s] \in {"success", "timeout", "critical"}
       /\ (X.res[s] = <<"true", 0>>) <=> (X.cause[s] = "success")
       /\ X.cause[s] = "success" =>
-            /\ \A k \in NonForever(C, s) : Fin(X, k)
+            /\ \A k \in NonForever(C, s) : Gone(X, k)
             /\ C.tmo[s] >= 0 /\ Kids(C, s) # {} => X.ta[s] <= Deadline(C, X, s)
             /\ \A k \in Kids(C, s) : (C.crit[k] /\ X.st[k] = "exc") => X.te[k] >= X.ta[s]
       /\ X.cause[s] = "timeout" =>
             /\ C.tmo[s] >= 0 /\ X.ta[s] = Deadline(C, X, s)
-            /\ NonForever(C, s) # {} => \E k \in NonForever(C, s) : ~(Fin(X, k) /\ X.te[k] < X.ta[s])
+            /\ NonForever(C, s) # {} => \E k \in NonForever(C, s) : ~(Gone(X, k) /\ X.te[k] < X.ta[s])
             /\ \A k \in Kids(C, s) : (C.crit[k] /\ X.st[k] = "exc") => X.te[k] >= X.ta[s]
       /\ X.cause[s] = "critical" =>
             /\ \E k \in Kids(C, s) : C.crit[k] /\ X.st[k] = "exc" /\ X.te[k] = X.ta[s]
@@ -77,7 +77,7 @@ AbortShape(C, X, s) ==
                                   /\ X.creq[k] \/ X.cause[k] = "cancelled"
         /\ X.st[k] \in {"running", "cancelling"} => X.pc[s] = "tidy"
         \* (a body that raised while being cancelled finished after the abort: tc >= 0)
-        /\ (Fin(X, k) /\ X.tc[k] < 0) => X.te[k] <= X.ta[s]
+        /\ (Gone(X, k) /\ X.tc[k] < 0) => X.te[k] <= X.ta[s]
 
 (* C05  critical failure aborts at once                                    *)
 C05(C, X) ==
@@ -104,7 +104,7 @@ C08(C, X) ==
     \* (a scheduler with no non-forever job at all is outside this clause: its run
     \*  ends with the first forever job that completes, or at the timeout)
     /\ (X.cause[s] = "timeout" /\ NonForever(C, s) # {})
-          => ~(\A k \in NonForever(C, s) : Fin(X, k) /\ X.te[k] < X.ta[s])
+          => ~(\A k \in NonForever(C, s) : Gone(X, k) /\ X.te[k] < X.ta[s])
 
 (* C09  forever jobs                                                       *)
 C09(C, X) ==
@@ -112,7 +112,7 @@ C09(C, X) ==
     (Aborted(X, s) /\ X.cause[s] = "success" /\ Kids(C, s) # {}) =>
        /\ AbortShape(C, X, s)
        /\ NonForever(C, s) # {} => X.ta[s] = Max({X.te[k] : k \in NonForever(C, s)})
-       /\ \A k \in Kids(C, s) : ~Fin(X, k) => C.forever[k]
+       /\ \A k \in Kids(C, s) : ~Gone(X, k) => C.forever[k]
        /\ \A k \in Kids(C, s) : (IsJob(C, k) /\ X.st[k] \in {"cancelling", "cancelled"} /\ X.nstart[k] > 0)
                                    => X.tc[k] = X.ta[s]
 
@@ -204,5 +204,8 @@ Admissible(C) ==
   /\ \A j \in Nodes(C) : C.cwait[j] # 0 =>
         /\ IsJob(C, j) /\ IsJob(C, C.cwait[j]) /\ C.parent[C.cwait[j]] = C.parent[j]
         /\ C.req[C.cwait[j]] = {} /\ C.win[C.parent[j]] = 0
+  \* a body that ends in CancelledError on its own never counts as finished for those
+  \* that require it: nobody does
+  /\ \A j \in Nodes(C) : C.out[j] = "selfc" => \A k \in Nodes(C) : j \notin C.req[k]
 
 =============================================================================
